@@ -235,10 +235,10 @@ def run_one(wt, src, m, procs, with_tests):
         f.write(new)
     res = dict(m, caught_by=[], quiet=[])
     try:
-        env = dict(os.environ, VERIF_REPO=wt, VERIF_PROCS=str(procs), VERIF_NO_EVIDENCE='1')
+        env = dict(os.environ, VERIF_REPO=wt, VERIF_PROCS=str(procs), VERIF_NO_EVIDENCE='1', VERIF_CALL_TIMEOUT='120')
         for chk in m['checks']:
             p = subprocess.run([os.path.join(VERIF, 'check'), chk], cwd=VERIF, env=env, stdout=subprocess.PIPE,
-                               stderr=subprocess.STDOUT, text=True, timeout=3000)
+                               stderr=subprocess.STDOUT, text=True, timeout=1500)
             if p.returncode == 1 and 'VIOLATION' in p.stdout:
                 res['caught_by'].append(chk)
                 sig = re.findall(r'^  \[([^\]]*)\]', p.stdout, re.M)
